@@ -102,3 +102,30 @@ V('C20', 'forward-rename-map-for-new-name', 'edb/schema/ordering.py', 'edb.schem
         ref_name_str = str(ref_name)
 ''', '''        ref_name_str = str(renames.get(ref_name, ref_name))
 ''', 'C20.R7', '_trace_op:forward-rename-key')
+
+# round 4
+V('C20', 'hard-dep-skipped-when-also-weak', F, SE,
+  '''            for dep in item.deps:
+                if dep in graph:
+                    adj[item_name].add(dep)''',
+  '''            for dep in item.deps:
+                if dep in weak_adj.get(item_name, ()):
+                    continue
+                if dep in graph:
+                    adj[item_name].add(dep)''', 'C20.R3', 'every-resolved=deps')
+V('C20', 'swallow-by-frame-flag', F, VIS,
+  'if len(visiting_weak) == 1:', 'if weak_link:', 'C20.R8', 'swallow-decision')
+# negative control: a depth counter kept in the closure instead of the set's
+# length decides the same thing
+V('C20', 'swallow-by-closure-counter', F, VIS,
+  'if len(visiting_weak) == 1:', 'if visiting_weak.__len__() == 1:', None)
+V('C20', 'crossrefs-filter-by-entries', 'edb/schema/delta.py',
+  'edb.schema.delta.sort_by_cross_refs_key',
+  "if not x.is_parent_ref(schema, ref) and x != ref}",
+  "if ref in frozenset(objs) and not x.is_parent_ref(schema, ref) and x != ref}",
+  'C20.R8', 'deps-filter')
+V('C20', 'crossrefs-filter-by-graph-keys', 'edb/schema/delta.py',
+  'edb.schema.delta.sort_by_cross_refs_key',
+  "if not x.is_parent_ref(schema, ref) and x != ref}",
+  "if ref in graph and not x.is_parent_ref(schema, ref) and x != ref}",
+  None)
